@@ -234,46 +234,17 @@ pub(crate) fn days_to_wyear(days: i32) -> u32 {
     }
 }
 
-/// Returns the years between two dates, considering day of year and subday nanoseconds
+/// Returns the full years between two dates, considering day of month and subday nanoseconds
 pub(crate) fn years_between(
     first_days: i32,
     first_nanos: u64,
     second_days: i32,
     second_nanos: u64,
 ) -> i32 {
-    let first_year = days_to_date(first_days).0;
-    let first_doy = days_to_doy(first_days);
-
-    let second_year = days_to_date(second_days).0;
-    let second_doy = days_to_doy(second_days);
-
-    let mut years_between = first_year - second_year;
-
-    // Fix needed as year 0 doesn't exist
-    if first_year >= 1 && second_year < 1 {
-        years_between -= 1
-    } else if first_year < 1 && second_year >= 1 {
-        years_between += 1
-    };
-
-    let extra_year = if years_between == 0 {
-        0
-    } else if first_year > second_year
-        && (first_doy < second_doy || (first_doy == second_doy && first_nanos < second_nanos))
-    {
-        -1
-    } else if first_year < second_year
-        && (first_doy > second_doy || (first_doy == second_doy && first_nanos > second_nanos))
-    {
-        1
-    } else {
-        0
-    };
-
-    years_between + extra_year
+    months_between(first_days, first_nanos, second_days, second_nanos) / 12
 }
 
-/// Returns the months between two dates, considering day of month and subday nanoseconds
+/// Returns the full months between two dates, considering day of month and subday nanoseconds
 pub(crate) fn months_between(
     first_days: i32,
     first_nanos: u64,
@@ -283,26 +254,25 @@ pub(crate) fn months_between(
     let (first_year, first_month, first_day) = days_to_date(first_days);
     let (second_year, second_month, second_day) = days_to_date(second_days);
 
-    let mut years_between = first_year - second_year;
-
-    // Fix needed as year 0 doesn't exist
-    if first_year >= 1 && second_year < 1 {
-        years_between -= 1
-    } else if first_year < 1 && second_year >= 1 {
-        years_between += 1
+    // Astronomical years (1 BC = 0) are continuous across the missing year 0
+    let first_year = if first_year.is_negative() {
+        first_year + 1
+    } else {
+        first_year
+    };
+    let second_year = if second_year.is_negative() {
+        second_year + 1
+    } else {
+        second_year
     };
 
-    let months_between = years_between * 12 + first_month as i32 - second_month as i32;
+    let months_between = (first_year - second_year) * 12 + first_month as i32 - second_month as i32;
 
-    let extra_month = if months_between == 0 {
-        0
-    } else if first_year > second_year
-        && (first_day < second_day || (first_day == second_day && first_nanos < second_nanos))
+    // A month only counts once its day of month (and time of day) is reached
+    let extra_month = if months_between > 0 && (first_day, first_nanos) < (second_day, second_nanos)
     {
         -1
-    } else if first_year < second_year
-        && (first_day > second_day || (first_day == second_day && first_nanos > second_nanos))
-    {
+    } else if months_between < 0 && (first_day, first_nanos) > (second_day, second_nanos) {
         1
     } else {
         0
